@@ -37,7 +37,7 @@ def check(run):
     acc = vlib.accepted(run, exe, U, regex_extra=200 if quick else 1500, rnd=rnd, tokens=2 if quick else 3, tokens_cap=300 if quick else 1500)
     versions, part = check_c20.choose_versions(run, exe, U, acc, rnd, 10, 10)
     jobs = []; cliruns = []
-    uni = vlib.unicode_families(run, exe, acc, random.Random(run.seed * 7919 + 7), per_eco=3 if quick else 12, size=nmax)   # own stream: the draws below are unchanged
+    uni = vlib.unicode_families(run, exe, acc, random.Random(run.seed * 7919 + 7), per_eco=5 if quick else 14, size=nmax)   # own stream: the draws below are unchanged
     run.extra["non_ascii_families"] = {e: len(uni[e]) for e in uni if uni[e]}
     nsets = 5 if quick else 25
     for e in ECOS:
